@@ -342,6 +342,11 @@ class BtRun:
                     run.trace.add("start", kind, hid, eid, S(e.when), run._now())
                     run.trace.add("end", kind, hid, eid, S(e.when), run._now())
                     raise failure(f"handler {hid} fails while being called", hid + k)
+                # any awaitable a plain callable returns is awaited
+                # (futures that start running on their own are left out: "started in subscription order" is judged by
+                # when the handler's body starts)
+                if hid % 2 == 1:
+                    return Later(handler(e))
                 return handler(e)
             return plain_handler
         return handler
@@ -586,6 +591,22 @@ def check_c13(run: BtRun) -> List[Tuple[str, str]]:
             out.append(("clock_moved_backwards", f"clock {prev} then {now_s} at seq {seq}"))
             break
         prev = now_s
+    # a job is over before any event with a later time is handled (it does not run alongside it)
+    job_end = {r[3]: r[0] for r in run.trace.rows if r[2] == "job" and r[1] == "end"}
+    job_when = {r[3]: r[5] for r in run.trace.rows if r[2] == "job" and r[1] == "start"}
+    job_start = {r[3]: r[0] for r in run.trace.rows if r[2] == "job" and r[1] == "start"}
+    ev_first = {}
+    for r in run.trace.rows:
+        if r[2] != "job" and r[1] == "start" and r[4] is not None and r[4] not in ev_first:
+            ev_first[r[4]] = (r[0], r[5])
+    for jid, end_seq in job_end.items():
+        jw = job_when.get(jid)
+        hit = next(((eid, st, ew) for eid, (st, ew) in ev_first.items() if jw is not None and ew > jw + 1e-9 and job_start.get(jid, 0) < st < end_seq), None)
+        if hit is not None:
+            out.append(("job_still_running_when_later_event_started",
+                        f"job {jid} (t={jw}) was still running (ended at seq {end_seq}) when event {hit[0]} (t={hit[2]}) "
+                        f"started at seq {hit[1]}"))
+            break
     # events unaffected by (failing) jobs: every subscribed pair exactly once
     for eid, (si, when) in run.events.items():
         for hid in run.subs.get(si, []):
